@@ -17,7 +17,7 @@ PROPS = ["C01", "C02", "C03", "C04", "C05", "C06", "C07", "C08", "C09", "C10", "
 
 
 class Ob:
-    __slots__ = ("rule", "key", "where", "ok", "detail", "nontrivial", "verdict", "path")
+    __slots__ = ("rule", "key", "where", "ok", "detail", "nontrivial", "verdict", "path", "defp", "premise_failed")
 
     def __init__(self, rule, key, where, ok, detail, nontrivial=True, path=None):
         self.rule = rule
@@ -28,12 +28,75 @@ class Ob:
         self.nontrivial = nontrivial
         self.verdict = "discharged" if ok else "violation"
         self.path = path
+        self.defp = None
+        self.premise_failed = False
 
     def to_json(self):
         d = {"rule": self.rule, "key": self.key, "where": self.where, "verdict": self.verdict, "detail": self.detail}
         if self.path:
             d["path"] = self.path
         return d
+
+
+def premise_str_index_from_search(prog, defp, where):
+    """every `str` slice on that source line takes its bounds from a search on a string (find / rfind / len / char_indices ..): such an
+    index is a char boundary inside the string. A bound that is a bare non-zero constant (or anything else) is not."""
+    b = prog.bodies.get(defp)
+    if b is None:
+        return False
+    try:
+        line = int(where.rsplit(":", 1)[1])
+    except (ValueError, IndexError):
+        return False
+    from .mir import op_place, op_int
+    searches = ("find", "rfind", "len", "char_indices", "rsplit_once", "split_once", "match_indices", "rmatch_indices", "find_map", "position", "rposition")
+    found = False
+
+    def ascii_guarded(fb, blk):
+        """the slice sits behind the true edge of an `is_ascii()` test in the enclosing function (every byte offset of an ASCII string
+        is a char boundary): directly, or the closure it lives in is created behind that edge"""
+        from .rules.common import gates_of_value
+        root = prog.bodies.get(fb.root)
+        if root is None:
+            return False
+        sites = [blk] if fb is root else [rb for rb in root.rpo() for s_ in root.stmts(rb)
+                                           if s_["k"] == "assign" and s_["rv"]["k"] == "agg" and s_["rv"].get("ak") == "closure" and s_["rv"].get("def") == fb.defp]
+        for (ab, ac, at) in root.calls():
+            if ac.method != "is_ascii":
+                continue
+            for g in gates_of_value(root, at["dest"][0]):
+                if g.kind == "bool" and sites and all(root.edge_dominates(g.block, g.bool_target(True), sb) for sb in sites):
+                    return True
+        return False
+
+    for fb in prog.family(b.root):
+        for (blk, c, t) in fb.calls():
+            if c.method not in ("index", "index_mut", "get", "get_mut", "split_at") or "str" not in c.target or not t.get("sp") or t["sp"][1] != line or len(t["args"]) < 2:
+                continue
+            found = True
+            if ascii_guarded(fb, blk):
+                continue
+            p = op_place(t["args"][1])
+            if p is None:
+                if op_int(t["args"][1]) not in (0, None):
+                    return False
+                continue
+            seen, calls, consts = fb.slice_back([p[0]])
+            # the search must have been made on (a part of) the string that is being sliced, not on some other string
+            rp = op_place(t["args"][0])
+            str_roots = fb.slice_back([rp[0]])[0] if rp is not None else set()
+            ok_search = False
+            for (_, cc, ct) in calls:
+                if cc.method in searches and ct["args"]:
+                    sp_ = op_place(ct["args"][0])
+                    if sp_ is not None and (fb.slice_back([sp_[0]])[0] & str_roots):
+                        ok_search = True
+            if not ok_search:
+                return False
+    return found
+
+
+PREMISES = {"str-index-from-search": premise_str_index_from_search}
 
 
 class Ctx:
@@ -53,6 +116,7 @@ class Ctx:
 
     def ob(self, rule, fn, what, where, ok, detail, nontrivial=True, path=None, ordinal=True):
         """Record an obligation. Key = rule|fn|what[|n] where n counts same-key obligations in order."""
+        fn_defp = fn
         fn = self.prog.display(fn)
         k0 = f"{rule}|{fn}|{what}"
         if ordinal:
@@ -62,9 +126,15 @@ class Ctx:
         else:
             key = k0
         o = Ob(rule, key, where, ok, detail, nontrivial, path)
+        o.defp = fn_defp
         if not ok and key in self.reviewed:
-            o.verdict = "reviewed-safe"
-            o.detail += " [reviewed-safe: " + self.reviewed[key]["reason"] + "]"
+            prem = self.reviewed[key].get("premise")
+            if prem and not PREMISES[prem](self.prog, fn_defp, where):
+                o.detail += f" [listed as reviewed-safe, but its premise `{prem}` does not hold for the code that is at this site now]"
+                o.premise_failed = True
+            else:
+                o.verdict = "reviewed-safe"
+                o.detail += " [reviewed-safe: " + self.reviewed[key]["reason"] + "]"
         self.obs.append(o)
         return o
 
@@ -99,6 +169,7 @@ def run_property(prop, repo, tier, replay=None, quiet=False):
         return 1
     prog = Program(units)
     ctx = Ctx(prog, prop, tier)
+    ctx.repo = repo
     mod = importlib.import_module(f"osq.rules.{prop.lower()}")
     try:
         mod.run(ctx)
@@ -214,13 +285,20 @@ def relocate(ctx, violations, known_keys, hit_keys):
             k = by_sig[sg].pop(0)
             o.verdict = "known-finding"
             relocated.append((o, k))
-        elif rev_by_sig.get(sg) or rev_by_sig.get((alias.get(sg[0], sg[0]), sg[1])):
+        elif (rev_by_sig.get(sg) or rev_by_sig.get((alias.get(sg[0], sg[0]), sg[1]))) and _premise_ok(ctx, (rev_by_sig.get(sg) or rev_by_sig.get((alias.get(sg[0], sg[0]), sg[1])))[0], o):
             k = (rev_by_sig.get(sg) or rev_by_sig.get((alias.get(sg[0], sg[0]), sg[1]))).pop(0)
             o.verdict = "reviewed-safe"
             o.detail += " [reviewed-safe entry " + k + " (site moved): " + ctx.reviewed[k]["reason"] + "]"
         else:
             out.append(o)
     return out, relocated
+
+
+def _premise_ok(ctx, rkey, o):
+    prem = ctx.reviewed[rkey].get("premise")
+    if not prem:
+        return True
+    return bool(o.defp) and PREMISES[prem](ctx.prog, o.defp, o.where)
 
 
 def selftest(prop, repo, log):
@@ -244,7 +322,7 @@ def selftest(prop, repo, log):
         if prop not in meta.get("must_be_caught_by", []):
             continue
         if base_keys is None:
-            base_keys = _violation_keys(prop, facts.load(facts.build(repo, "quick", log=log)))
+            base_keys = _violation_keys(prop, facts.load(facts.build(repo, "quick", log=log)), repo)
         scratch = tempfile.mkdtemp(prefix=f"osq-selftest-{prop}-{idn}-")
         try:
             dst = os.path.join(scratch, "tree")
@@ -254,7 +332,7 @@ def selftest(prop, repo, log):
                 rows.append({"seeded": idn, "result": "SKIPPED (patch does not apply to the current tree)"})
                 continue
             try:
-                keys = _violation_keys(prop, facts.load(facts.build(dst, "quick", log=log)))
+                keys = _violation_keys(prop, facts.load(facts.build(dst, "quick", log=log)), dst)
             except facts.BuildError as e:
                 rows.append({"seeded": idn, "result": "SKIPPED (patched copy does not compile: " + str(e)[:120] + ")"})
                 continue
@@ -265,10 +343,11 @@ def selftest(prop, repo, log):
     return rows
 
 
-def _violation_keys(prop, units):
+def _violation_keys(prop, units, repo=None):
     """keys the check would print a VIOLATION line for on this fact base (after known-finding matching and relocation)"""
     prog = Program(units)
     ctx = Ctx(prog, prop, "quick")
+    ctx.repo = repo
     importlib.import_module(f"osq.rules.{prop.lower()}").run(ctx)
     known_keys = {k["key"]: k for k in load_known() if k["property"] == prop and k.get("status", "known") == "known"}
     viol = [o for o in ctx.obs if o.verdict == "violation" and o.key not in known_keys]
